@@ -4113,7 +4113,11 @@ impl Machine {
             Ok(num_functors)
         }
 
-        if prec.is_var() {
+        // with the priority bound, the direct lookup below needs both other arguments bound;
+        // otherwise enumerate and let member/2 filter on the priority
+        let direct = !self.deref_register(2).is_var() && !self.deref_register(3).is_var();
+
+        if prec.is_var() || !direct {
             let spec = self.deref_register(2);
             let orig_op = self.deref_register(3);
 
